@@ -18,6 +18,7 @@ type TV struct {
 	Ty    types.Type
 	Fs    []TV           // compound
 	Const constant.Value // untyped constant (T is nil until converted)
+	Pred  func(env *Env, args []TV) (TV, error) // closure argument usable with callpred
 }
 
 func (v TV) isCompound() bool { return v.T == nil && v.Const == nil && v.Fs != nil }
@@ -862,6 +863,29 @@ func (env *Env) call(x ECall) TV {
 		}
 		w.boxSorts[so] = true
 		return TV{T: App("unbox!"+smtName(string(so)), so, IfRef(v.T)), Ty: ty}
+	case "callpred":
+		// callpred(f, args…): the result expression of the contract of the
+		// closure passed as argument f, applied to args
+		if len(x.Args) < 1 {
+			cfail("callpred(f, args…)")
+		}
+		id, ok := x.Args[0].(EIdent)
+		if !ok {
+			cfail("callpred: first argument must name a function-valued parameter")
+		}
+		fv, ok := env.vars[id.Name]
+		if !ok || fv.Pred == nil {
+			cfail("callpred: %s is not a closure with a contract of the form `ensures result == e`", id.Name)
+		}
+		var as []TV
+		for _, a := range x.Args[1:] {
+			as = append(as, env.comp(a))
+		}
+		r, err := fv.Pred(env, as)
+		if err != nil {
+			cfail("callpred: %v", err)
+		}
+		return r
 	case "wfi":
 		// wfi(x): the interface value holds a non-nil pointer
 		v := env.comp(x.Args[0])
